@@ -16,7 +16,7 @@
 EXTENDS EonPKProps, Json, TLC, SequencesExt
 
 CONSTANTS
-    Modes,        \* subset of {"Broadcast", "Callback", "Both", "Neither"}
+    Modes,        \* names of option sequences (EonPK!OptSeq): Broadcast Callback CallbackRev NoBcTwice Both BothTwice Neither
     InsertKinds,  \* kinds of eons that Ins may insert: subset of {"member", "foreign", "orphan"}
     MaxPending,   \* at most that many rows pending at once (insertions per tick)
     MaxTicks,     \* number of ticks per history
@@ -28,8 +28,6 @@ vars == <<mode, rows, used, g, line, nt, tags, hist>>
 \* tags: the fault classes taken so far ("sqlerr", "refuse").  A failed statement changes nothing in
 \* the spec, so without the tags in the VIEW a history that contains one would be shadowed by an
 \* equivalent history without it and the real handler would never be driven past a fault.
-
-ModeOf(n) == CASE n = "Broadcast" -> Broadcast [] n = "Callback" -> Callback [] n = "Both" -> Both [] OTHER -> Neither
 
 Line(k, m, e, ord, q, fail, res, pre, calls, err, post) ==
     [k |-> k, mode |-> m, e |-> e, ord |-> ord, q |-> q, fail |-> fail, res |-> res, pre |-> pre,
@@ -89,7 +87,7 @@ StepProps == [][Failed(g, line') = {}]_vars
 Drained == (nt = MaxTicks /\ line.k = "tick" /\ Clean(line)) => g.owed = {}
 
 \* generation: one history per distinct (state, last step)
-EmitInv == (~Emit) \/ PrintT(<<"B", ToJson([mode |-> mode, ops |-> hist])>>)
+EmitInv == (~Emit) \/ PrintT(<<"B", ToJson([mode |-> mode, opts |-> OptSeq(mode.o), ops |-> hist])>>)
 GenView == <<mode, rows, used, g, line, nt, tags>>
 
 ASSUME PrintT(<<"CONST", ToJson([eons |-> EonTab, cfgs |-> CfgTab, loop |-> LoopMode])>>)
